@@ -687,4 +687,154 @@ theorem C11_mustParse_canonical {N : Norm} (g : N.Good) {s : Bytes} {j : Jid}
     (h : mustParse N s = some j) : mustParse N j.toString = some j :=
   (C11_mustParse_agree N _ j).mpr (C11_parse_idem g ((C11_mustParse_agree N s j).mp h))
 
+/-! ### The code: canonical without assuming that PRECIS is idempotent (round E, review C11-1)
+
+`UsernameCaseMapped` of golang.org/x/text v0.21 is **not** idempotent (NFC composition runs
+after the case mapping and looks pairs up with both runes truncated to 16 bits:
+U+10041 U+0301 ↦ `Á` ↦ `á`; 878 single-rune witnesses, every plane 1-16), so `Norm.Good` is false
+of the linked library and the theorems above say nothing about it.  Since
+`fix: jid: reject a localpart whose normalized form is not stable` the code applies the profile
+a second time and rejects a localpart whose enforced form is not a fixed point: the functions of
+the Go package are `new N.code`, `parse N.code`, `withLocal N.code`, … (`Norm.code`,
+`Model/Jid.lean`; the driver runs exactly these).  `Norm.code_good` turns the remaining
+hypotheses `Norm.Lib` - each about single outputs, each probed on the real libraries for *every*
+Unicode scalar value (`C11_gen_lib`) - into `Good N.code`. -/
+
+/-- **`New` returns canonical addresses** (the code, no idempotence hypothesis) -/
+theorem C11_code_new_canonical {N : Norm} (g : N.Lib) {l d r : Bytes} {j : Jid}
+    (h : new N.code l d r = .ok j) : parse N.code j.toString = .ok j :=
+  C11_new_canonical (Norm.code_good g) h
+
+/-- **`Parse` is idempotent** (the code) -/
+theorem C11_code_parse_idem {N : Norm} (g : N.Lib) {s : Bytes} {j : Jid}
+    (h : parse N.code s = .ok j) : parse N.code j.toString = .ok j :=
+  C11_parse_idem (Norm.code_good g) h
+
+theorem C11_code_parts_valid_parse {N : Norm} (g : N.Lib) {s : Bytes} {j : Jid}
+    (h : parse N.code s = .ok j) :
+    validUtf8 j.localpart = true ∧ validUtf8 j.domainpart = true ∧ validUtf8 j.resourcepart = true ∧
+    j.localpart.length ≤ maxPart ∧ 1 ≤ j.domainpart.length ∧ j.domainpart.length ≤ maxPart ∧
+    j.resourcepart.length ≤ maxPart ∧ (∀ c ∈ forbidden, c ∉ j.localpart) ∧ j.WF :=
+  C11_parts_valid_parse (Norm.code_good g) h
+
+/-- replacing a part of a returned address gives a canonical address (the code) -/
+theorem C11_code_with_canonical {N : Norm} (g : N.Lib) {l₀ d₀ r₀ : Bytes} {b : Jid}
+    (hb : new N.code l₀ d₀ r₀ = .ok b) (x : Bytes) (j : Jid)
+    (h : withLocal N.code b x = .ok j ∨ withDomain N.code b x = .ok j ∨ withResource N.code b x = .ok j) :
+    parse N.code j.toString = .ok j :=
+  C11_with_canonical (Norm.code_good g) hb x j h
+
+/-- the XML encodings round-trip (the code) -/
+theorem C11_code_attr_elem_roundtrip {N : Norm} (g : N.Lib) {l d r : Bytes} {j : Jid}
+    (h : new N.code l d r = .ok j) (old : Jid) :
+    unmarshalAttr N.code old (marshal j) = (j, true) ∧ unmarshalElem N.code old (marshal j) = (j, true) :=
+  C11_attr_elem_roundtrip (Norm.code_good g) h old
+
+theorem C11_code_mustParse_canonical {N : Norm} (g : N.Lib) {s : Bytes} {j : Jid}
+    (h : mustParse N.code s = some j) : mustParse N.code j.toString = some j :=
+  C11_mustParse_canonical (Norm.code_good g) h
+
+/-- for a library whose profile is idempotent the test changes nothing: the code is the
+function of the earlier rounds -/
+theorem C11_code_eq_of_idem {N : Norm} (g : N.Good) : N.code = N := by
+  cases N
+  simp only [Norm.code]
+  congr
+  exact stab_of_idem g.nL_idem
+
+/-- a library of the x/text kind: `X ↦ A ↦ a ↦ a` on localparts -/
+def foldNorm : Norm where
+  nL := fun x => if x = [0x58] then some [0x41] else if x = [0x41] ∨ x = [0x61] then some [0x61] else none
+  nR := fun _ => none
+  idna := fun x => if x = [0x62] then some [0x62] else none
+  ip6 := fun _ => false
+  ip4 := fun _ => false
+
+theorem C11_foldNorm_lib : foldNorm.Lib where
+  nL_ne := by
+    intro x y h
+    simp only [foldNorm] at h
+    split at h
+    · cases h; decide
+    · split at h
+      · cases h; decide
+      · cases h
+  nL_utf8 := by
+    intro x y h
+    simp only [foldNorm] at h
+    split at h
+    · cases h; rfl
+    · split at h
+      · cases h; rfl
+      · cases h
+  nR_idem := by intro x y h; cases h
+  nR_ne := by intro x y h; cases h
+  nR_utf8 := by intro x y h; cases h
+  idna_utf8 := by
+    intro x y h
+    simp only [foldNorm] at h
+    split at h
+    · cases h; rfl
+    · cases h
+  idna_clean := by
+    intro x y h
+    simp only [foldNorm] at h
+    split at h
+    · cases h; decide
+    · cases h
+  ip_clean := by intro d h; simp [foldNorm] at h
+
+/-- **Negation witness: without the fixed-point test the canonical-form clause fails** for a
+library that satisfies every other hypothesis: `Parse("X@b")` returns `A@b`, whose string form
+parses to the different address `a@b` (this is `\U00010041\u0301@example.com` ↦ `Á@…` ↦ `á@…`
+on the unrepaired tree, replay `DESIGN-notes/C11-replays/quick-seed1-parse-idempotent-939bb46a.json`);
+with the test `X@b` is refused. -/
+theorem C11_canonical_needs_fixed_point_test :
+    foldNorm.Lib ∧
+    parse foldNorm [0x58, 0x40, 0x62] = .ok ⟨[0x41, 0x62], 1, 1⟩ ∧
+    parse foldNorm (Jid.toString ⟨[0x41, 0x62], 1, 1⟩) = .ok ⟨[0x61, 0x62], 1, 1⟩ ∧
+    parse foldNorm.code [0x58, 0x40, 0x62] = .error .norm ∧
+    parse foldNorm.code [0x61, 0x40, 0x62] = .ok ⟨[0x61, 0x62], 1, 1⟩ :=
+  ⟨C11_foldNorm_lib, by rfl, by rfl, by rfl, by rfl⟩
+
+theorem C11_parse_idem_fails_without_test :
+    ¬ ∀ (N : Norm), N.Lib → ∀ s j, parse N s = .ok j → parse N j.toString = .ok j := by
+  intro h
+  have h1 := h foldNorm C11_foldNorm_lib _ _ C11_canonical_needs_fixed_point_test.2.1
+  rw [C11_canonical_needs_fixed_point_test.2.2.1] at h1
+  injection h1 with h2
+  injection h2 with h3
+  exact absurd h3 (by decide)
+
+/-- **`String` is injective on returned addresses** (review C11-3: the composition of
+`C11_string_injective` with what `New` guarantees of its result): two addresses the code returns
+that have the same string form are equal. -/
+theorem C11_string_injective_new {N : Norm} (g : N.Lib) {l d r l' d' r' : Bytes} {j j' : Jid}
+    (h : new N.code l d r = .ok j) (h' : new N.code l' d' r' = .ok j')
+    (hs : j.toString = j'.toString) : j = j' := by
+  have gg := Norm.code_good g
+  obtain ⟨_, _, a, b, c, hd, _, _, _, h2, _, rfl⟩ := new_ok_iff.mp h
+  obtain ⟨_, _, a', b', c', hd', _, _, _, h2', _, rfl⟩ := new_ok_iff.mp h'
+  obtain ⟨d1, d2, _, _, _⟩ := normDomain_clean gg hd
+  obtain ⟨d1', d2', _, _, _⟩ := normDomain_clean gg hd'
+  exact C11_string_injective
+    ⟨not_mem_of_hasForbidden h2 (by decide), not_mem_of_hasForbidden h2 (by decide), d2, d1⟩
+    ⟨not_mem_of_hasForbidden h2' (by decide), not_mem_of_hasForbidden h2' (by decide), d2', d1'⟩ hs
+
+/-- regenerated fact (probe over the complete domain): for **every Unicode scalar value** `c`,
+in the contexts localpart `c`+U+0301, localpart `a`+`c`, resourcepart `c`+U+0301, domainpart
+`c`+`a`, domainpart `a`+`c`, whenever the real `New` returns an address the real `Parse` of its
+string form returns an equal address with the same string form -/
+theorem C11_gen_scalar_canonical :
+    Generated.C11.scalarCanonical = some [("local:c+mark", 0), ("local:a+c", 0),
+      ("resource:c+mark", 0), ("domain:c+a", 0), ("domain:a+c", 0)] := by decide
+
+/-- regenerated fact (probe over the complete domain): no output of the real
+`UsernameCaseMapped`, `OpaqueString`, `ToUnicode` on the same inputs violates a field of
+`Norm.Lib` (the hypotheses of the `C11_code_*` theorems).  Idempotence of `UsernameCaseMapped`
+is *not* among them (878 violations, see the generated file). -/
+theorem C11_gen_lib :
+    Generated.C11.libProbe = some [("nL-nonempty", 0), ("nL-utf8", 0), ("nR-idempotent", 0),
+      ("nR-nonempty", 0), ("nR-utf8", 0), ("idna-utf8", 0), ("idna-clean", 0)] := by decide
+
 end XmppModel.Props.C11
